@@ -120,3 +120,96 @@ def mk_from_intervals(prefix):
 from_intervals = mk_from_intervals("C09")
 
 CONTRACTS = [from_intervals]
+
+
+# ---------------------------------------------------------------------------------------------------------------------------------------------
+# from_bedgraph: rows (start_i, stop_i, value_i), sorted and non-overlapping, n >= 1; a gap run with value 0 is inserted wherever
+# start_{i+1} != stop_i, a leading zero run if start_0 != 0, a trailing zero run up to `size` if the last stop is smaller.
+# With G(i) = number of gaps between rows 0..i (spec function: prefix count) and z = [start_0 != 0], row i becomes run r(i) = i + G(i) + z:
+#   events[r(i)] = start_i,  values[r(i)] = value_i,  events[r(i)+1] = stop_i;  every inserted run carries 0;  events[0] = 0;  the last event is
+#   `size` (or the last stop when no size is given);  len(values) = len(events) - 1.
+from pyvc.pybuiltins import STable      # noqa: E402
+from pyvc import npmodel as M           # noqa: E402
+
+
+def _setup_bg(with_size):
+    def setup(ctx):
+        st = St()
+        st.n, st.size = z3.Int("n_rows"), z3.Int("size")
+        st.s, st.e, st.v = [z3.Function(x, z3.IntSort(), z3.IntSort()) for x in ("start", "stop", "value")]
+        st.gap01 = lambda k: Ite(st.s(I(k) + 1) != st.e(I(k)), 1, 0)
+        st.G = M.exclusive_prefix(st.gap01, st.n - 1)
+        ctx.ip.class_models[_G()] = _rla
+        st.table = STable({"chromosome": SArr.fresh(st.n, lambda i: 0), "start": SArr.fresh(st.n, lambda i: st.s(I(i))),
+                           "stop": SArr.fresh(st.n, lambda i: st.e(I(i))), "value": SArr.fresh(st.n, lambda i: st.v(I(i)))}, st.n)
+        st.args = [_G(), st.table]
+        st.kwargs = {"size": st.size} if with_size else {}
+        st.with_size = with_size
+        return st
+    return setup
+
+
+def _req_bg(ctx, st):
+    from pyvc.core import PairForall
+    ctx.assume(st.n >= 1)
+    M.prefix_monotone(st.G, st.gap01, st.n - 1)
+    r = [Forall(lambda i: Implies(in_range(i, st.n), And(0 <= st.s(i), st.s(i) < st.e(i), Implies(i + 1 < st.n, st.e(i) <= st.s(i + 1)))), triggers=[st.s],
+                name="sorted, non-overlapping, non-empty rows"),
+         Forall(lambda i: Implies(in_range(i, st.n), And(0 <= st.s(i), st.s(i) < st.e(i), Implies(i + 1 < st.n, st.e(i) <= st.s(i + 1)))), triggers=[st.e], name="same, on stop")]
+    if st.with_size:
+        r.append(st.e(st.n - 1) <= st.size)
+    return r
+
+
+def _ghost_bg(ip, env, st):
+    """the code's gap mask has the spec's gap count as its prefix count (L6), and that count brackets flatnonzero's positions (L9)"""
+    mi = env.vars["missing_idx"]
+    mask = mi.nz_of[0]
+    K, pos, m = M.count_before(mask)
+    fm = mask.snapshot()
+    f01 = ip.ctx.ghost["mask01"][id(fm)]
+    M.prefix_congruent(K, f01, st.G, st.gap01, st.n - 1, "lemma.gap.count")
+    st.K, st.pos, st.m = K, pos, m
+
+
+def _ens_bg(ctx, st, ret):
+    ev, va = ret.get("events"), ret.get("values")
+    z = Ite(st.s(0) != 0, 1, 0)
+    last_stop = st.e(st.n - 1)
+    T = Ite(st.size != last_stop, 1, 0) if st.with_size else 0
+    r = lambda i: I(i) + st.G(i) + z
+    st.ev = ev
+    goals = [("n.events", I(ev.length) == st.n + st.G(st.n - 1) + 1 + T + z),
+             ("one.value.per.run", I(va.length) == I(ev.length) - 1),
+             ("first.event.is.0", ev.at(0) == 0),
+             ("last.event.is.size (or the last stop)", ev.at(I(ev.length) - 1) == (st.size if st.with_size else last_stop)),
+             ("row.i.is.run.r(i): start", Forall(lambda i: Implies(in_range(i, st.n), ev.at(r(i)) == st.s(i)))),
+             ("row.i.is.run.r(i): stop", Forall(lambda i: Implies(in_range(i, st.n), ev.at(r(i) + 1) == st.e(i)))),
+             ("row.i.is.run.r(i): value", Forall(lambda i: Implies(in_range(i, st.n), va.at(r(i)) == st.v(i)))),
+             ("gap.runs.carry.0", Forall(lambda i: Implies(And(in_range(i, st.n - 1), st.s(i + 1) != st.e(i)), va.at(r(i) + 1) == 0))),
+             ("leading.run.carries.0", Implies(st.s(0) != 0, va.at(0) == 0))]
+    if st.with_size:
+        goals.append(("trailing.run.carries.0", Implies(st.size != last_stop, va.at(I(va.length) - 1) == 0)))
+    return goals
+
+
+def _hints_bg(ctx, st, ks):
+    out = [st.G(st.n - 1)]
+    if hasattr(st, "K"):
+        out += [st.K(st.n - 1)]
+        for k in ks[:1]:
+            out += [st.G(k), st.G(k + 1), st.K(k), st.K(k + 1), st.pos(st.K(k)), st.pos(st.K(k) - 1), k + st.K(k), k + st.K(k) + 1, k - 1]
+    return out
+
+
+def _mk_bg(with_size):
+    return Contract("C09.GenomicRunLengthArray.from_bedgraph[%s]" % ("size given" if with_size else "no size"), target=lambda: _G().from_bedgraph.__func__,
+                    setup=_setup_bg(with_size), requires=_req_bg, ensures=_ens_bg, hints=_hints_bg, timeout_ms=60000,
+                    ghost=[("if len(missing_idx):", _ghost_bg)], raises={},
+                    decorators={"@classmethod": "receiver is the class"},
+                    canaries=[("gap run starts at the NEXT row's start", "np.insert(bedgraph.start, missing_idx+1, bedgraph.stop[missing_idx])", "np.insert(bedgraph.start, missing_idx+1, bedgraph.start[missing_idx+1])"),
+                              ("gap inserted before the wrong row", "value = np.insert(bedgraph.value, missing_idx+1, 0)", "value = np.insert(bedgraph.value, missing_idx, 0)"),
+                              ("no leading run", "if events[0] != 0:", "if False:")])
+
+
+CONTRACTS += [_mk_bg(True), _mk_bg(False)]
